@@ -91,8 +91,12 @@ def check(ctx):
     ctx.check(its[:1] == ["self.design"] and "range(0, len(convert_sample_from_names_to_objects(sample, self.design)[factor]), self.sustain_count(factor))" in its,
               R, f, "loops %s" % its, "every factor at every sustain-th trial", "sample_mismatch_factors loops are %s" % its)
     hid = [s for s in rf.stmts if isinstance(s, ast.If) and "HiddenName" in ast.unparse(s.test)]
-    ctx.check(len(hid) == 1 and ast.unparse(hid[0].test) == "not isinstance(factor.name, HiddenName)", R, f, "hidden",
-              "only library-internal (hidden) factors are skipped", "the hidden-factor filter changed")
+    # canonical path condition of the test_trial call: exactly `the factor's name is not hidden` (nested if or guard clause with continue)
+    from ..facts import Facts as _F17
+    F17 = _F17(f)
+    tt_ = [x for x in F17.stmts if not isinstance(x, (ast.For, ast.If, ast.While)) and any(isinstance(c_, ast.Call) and call_attr(c_) == "test_trial" for c_ in ast.walk(x))]
+    ctx.check(len(hid) == 1 and len(tt_) == 1 and F17.conds(tt_[0]) == ["not(isinstance(factor.name, HiddenName))"], R, f, "hidden",
+              "only library-internal (hidden) factors are skipped", "the hidden-factor filter changed: test_trial runs under %s" % (F17.conds(tt_[0]) if tt_ else "?"))
     tt = _one_call(ctx, rf, "test_trial", f)
     ctx.check(str(rf.at(tt[1], tt[0])) == "factor.test_trial(i, convert_sample_from_names_to_objects(sample, self.design), self.sustain_count(factor))" and
               isinstance(tt[1], ast.AugAssign) and isinstance(tt[1].op, ast.BitAnd), R, f, "test_trial", "test_trial results are conjoined",
@@ -134,9 +138,14 @@ def check(ctx):
               "window positions loop is %s" % [str(l["iter"]) for l in jl])
     sw = ctx.fn("derivation_processor:DerivationProcessor.shift_window")
     rs = Roles(sw)
-    app = [c for c, st in rs.calls_named("append") if dotted(c.func.value) == "l" and "sustain_count" in ast.unparse(c)]
+    app = [c for c, st in rs.calls_named("append") if "sustain_count" in ast.unparse(c) and len(c.args) == 1]
     ctx.require(len(app) == 1, "%s: shifted index append not found" % sw.fq)
     t = str(sym(app[0].args[0]))
+    # the enumerate loop that holds the append names the position and the element
+    enc_ = [l_ for l_ in statements(sw.node) if isinstance(l_, ast.For) and isinstance(l_.iter, ast.Call) and dotted(l_.iter.func) == "enumerate" and
+            isinstance(l_.target, ast.Tuple) and len(l_.target.elts) == 2 and any(x_ is app[0] for x_ in ast.walk(l_))]
+    if enc_ and all(isinstance(e_, ast.Name) for e_ in enc_[-1].target.elts):
+        t = str(sym(app[0].args[0], Env(rename={enc_[-1].target.elts[0].id: "i", enc_[-1].target.elts[1].id: "idx"})))
     ctx.check(t == "idx + i*sustain_count*trial_size", R, sw, "encoder shift %s" % t,
               "encoder shifts window position i by i x sustain x trial_size (same {width, sustain} dependence as the checker)",
               "shift_window shifts by `%s`" % t, app[0])
